@@ -122,12 +122,12 @@ def any_worker(arg):
 
 def check(tier, seed):
     t = pc.trees("plain", "san")
-    n = 160 if tier == "quick" else 960
-    nsan = 16 if tier == "quick" else 96
+    n = 160 if tier == "quick" else 640
+    nsan = 16 if tier == "quick" else 64
     res = Result("exploration")
     res.rule = RULE
     base = seed * 1000000 + (0 if tier == "quick" else 50000) + 600000
-    ncomp = 6 if tier == "quick" else 72
+    ncomp = 6 if tier == "quick" else 24
     jobs = [("compiled", base + 900000 + i, t["plain"]) for i in range(ncomp)]
     jobs += [("interp", base + i, t["plain"]) for i in range(n)] + [("interp", base + n + i, t["san"]) for i in range(nsan)]
     recs = runner.pmap(any_worker, jobs)
